@@ -109,7 +109,8 @@ Proof. intros H A a b L. apply A. lia. Qed.
 
 Ltac fixed_cfg :=
   unfold cfg_fixed;
-  cbn [c_member_items c_link_branch c_iris_lists c_url_isnil c_conv_err c_with_driven c_nil_guards c_url_items].
+  cbn [c_member_items c_link_branch c_iris_lists c_url_isnil c_conv_err c_with_driven c_nil_guards c_url_items
+       c_match_once].
 
 (* ================================================================================================================
    From here to the end of module EqGP every lemma is GENERIC in the IRI comparison [ideq a b cs] = a.Equals(b, cs)
@@ -166,6 +167,27 @@ Section Ext.
     - intros [|]; [|reflexivity]. apply IH. intros; apply Hi; right; auto.
   Qed.
 
+  Lemma find_unused_ext w x : forall used,
+    (forall m, In m w -> r1 m x = r2 m x) -> find_unused r1 w used x = find_unused r2 w used x.
+  Proof.
+    induction w as [|m t IH]; intros used H; [reflexivity|].
+    destruct used as [|[|] ut]; cbn [find_unused]; [reflexivity| |].
+    - rewrite (IH ut); [reflexivity|]. intros; apply H; right; auto.
+    - apply obind_ext; [apply H; left; reflexivity|]. intros [|]; [reflexivity|].
+      rewrite (IH ut); [reflexivity|]. intros; apply H; right; auto.
+  Qed.
+
+  Lemma all_matched_ext i w bi bw : forall used,
+    (forall x, In x i -> esize x < bi) -> (forall m, In m w -> esize m < bw) ->
+    agree (bi + bw - 1) r1 r2 ->
+    all_matched r1 i w used = all_matched r2 i w used.
+  Proof.
+    intros used Hi Hw A. revert used. induction i as [|x t IH]; intro used; cbn [all_matched]; [reflexivity|].
+    apply obind_ext.
+    - apply find_unused_ext. intros m Hm. apply A. specialize (Hi x (or_introl eq_refl)). specialize (Hw m Hm). lia.
+    - intros [u'|]; [|reflexivity]. apply IH. intros; apply Hi; right; auto.
+  Qed.
+
   Lemma itemcoll_ext i w bi :
     c_member_items cfg = true ->
     (forall x, In x i -> esize x < bi) -> agree (bi + esize w - 1) r1 r2 ->
@@ -176,7 +198,9 @@ Section Ext.
     destruct (negb _); [reflexivity|].
     destruct (to_item_collection w) as [wl|] eqn:E; [|reflexivity].
     destruct (negb _); [reflexivity|].
-    eapply all_contained_ext; eauto. intros m Hm. eapply to_item_collection_size; eauto.
+    destruct (c_match_once cfg).
+    - eapply all_matched_ext; eauto. intros m Hm. eapply to_item_collection_size; eauto.
+    - eapply all_contained_ext; eauto. intros m Hm. eapply to_item_collection_size; eauto.
   Qed.
 
   Lemma cmp_one_ext c ofs wfs :
@@ -408,8 +432,23 @@ Section Tot.
     apply obind_total; [apply contains_total|]. intros [|]; [exact IH|tot].
   Qed.
 
+  Lemma find_unused_total w x : forall used, exists v, find_unused rec w used x = Ok v.
+  Proof.
+    induction w as [|m t IH]; intro used; [eexists; reflexivity|].
+    destruct used as [|[|] ut]; cbn [find_unused]; [eexists; reflexivity| |].
+    - destruct (IH ut) as [v ->]. eexists; reflexivity.
+    - destruct (Hrec m x) as [b ->]. cbn [obind]. destruct b; [eexists; reflexivity|].
+      destruct (IH ut) as [v ->]. eexists; reflexivity.
+  Qed.
+
+  Lemma all_matched_total i w : forall used, total (all_matched rec i w used).
+  Proof.
+    induction i as [|x t IH]; intro used; cbn [all_matched]; [tot|].
+    destruct (find_unused_total w x used) as [[u'|] ->]; cbn [obind]; [apply IH|tot].
+  Qed.
+
   Lemma itemcoll_total i w : total (itemcoll_equals cfg_fixed rec i w).
-  Proof. unfold itemcoll_equals. tot. apply all_contained_total. Qed.
+  Proof. unfold itemcoll_equals. fixed_cfg. tot. apply all_matched_total. Qed.
 
   Lemma cmp_one_total c ofs wfs : total (cmp_one cfg_fixed rec c ofs wfs).
   Proof.
@@ -670,6 +709,53 @@ Proof.
   apply IH; [intros z Hz; apply Hi; right; exact Hz|intros z Hz; apply Hr; right; exact Hz].
 Qed.
 
+(* the one-to-one matching, without positions: all_matched = all_removed on the members not yet used *)
+Fixpoint unused (w : list item) (used : list bool) : list item :=
+  match w, used with
+  | m :: t, u :: ut => if u then unused t ut else m :: unused t ut
+  | _, _ => []
+  end.
+
+Lemma unused_fresh w : unused w (repeat false (length w)) = w.
+Proof. induction w as [|m t IH]; [reflexivity|]. cbn [length repeat unused]. rewrite IH. reflexivity. Qed.
+
+Lemma find_unused_removal rec w x : forall used,
+  omap (option_map (unused w)) (find_unused rec w used x) = remove_first rec (unused w used) x.
+Proof.
+  induction w as [|m t IH]; intro used; [reflexivity|].
+  destruct used as [|[|] ut]; cbn [find_unused unused]; [reflexivity| |].
+  - rewrite <- IH. destruct (find_unused rec t ut x) as [[r|]| | |]; reflexivity.
+  - cbn [remove_first]. destruct (rec m x) as [[|]| | |]; try reflexivity. cbn [obind].
+    rewrite <- IH. destruct (find_unused rec t ut x) as [[r|]| | |]; reflexivity.
+Qed.
+
+Lemma all_matched_removal rec i : forall w used,
+  all_matched rec i w used = all_removed rec i (unused w used).
+Proof.
+  induction i as [|x t IH]; intros w used; [reflexivity|]. cbn [all_matched all_removed].
+  rewrite <- find_unused_removal.
+  destruct (find_unused rec w used x) as [[u'|]| | |]; try reflexivity. cbn. apply IH.
+Qed.
+
+Lemma all_matched_fresh rec i w : all_matched rec i w (repeat false (length w)) = all_removed rec i w.
+Proof. rewrite all_matched_removal, unused_fresh. reflexivity. Qed.
+
+(* members equal position by position are matched position by position *)
+Lemma all_removed_pointwise rec i : forall w,
+  Forall2 (fun x m => rec m x = Ok true) i w -> all_removed rec i w = Ok true.
+Proof.
+  induction i as [|x t IH]; intros w H; [reflexivity|].
+  inversion H as [|x' m t' w' Hx Ht]; subst. cbn [all_removed remove_first]. rewrite Hx. cbn [obind].
+  apply IH. exact Ht.
+Qed.
+
+Lemma all_matched_refl i :
+  (forall x, In x i -> ieq x x = Ok true) -> all_matched ieq i i (repeat false (length i)) = Ok true.
+Proof.
+  intro Hr. rewrite all_matched_fresh. apply all_removed_pointwise.
+  induction i as [|x t IH]; constructor; [apply Hr; left; reflexivity|]. apply IH. intros z Hz; apply Hr; right; exact Hz.
+Qed.
+
 Lemma itemcoll_refl l w :
   is_item_collection w = true -> is_nil w = false -> to_item_collection w = Some l ->
   (forall x, In x l -> ieq x x = Ok true) -> itemcoll_equals cfg_fixed ieq l w = Ok true.
@@ -680,7 +766,7 @@ Proof.
   assert (T : bytes_eqb (typ w) collection_of_items || true && bytes_eqb (typ w) collection_of_iris = true).
   { destruct w; try discriminate; vm_compute; reflexivity. }
   rewrite T. cbn [negb]. rewrite Nat.eqb_refl. cbn [negb].
-  apply all_contained_refl; [apply incl_refl|exact Hr].
+  apply all_matched_refl. exact Hr.
 Qed.
 
 Lemma cmp_one_refl c fs :
@@ -1093,6 +1179,8 @@ Ltac inst L :=
         | exact (L iri_eqb) | exact L ].
 Definition contains_ext := ltac:(inst EqGP.contains_ext).
 Definition all_contained_ext := ltac:(inst EqGP.all_contained_ext).
+Definition find_unused_ext := ltac:(inst EqGP.find_unused_ext).
+Definition all_matched_ext := ltac:(inst EqGP.all_matched_ext).
 Definition itemcoll_ext := ltac:(inst EqGP.itemcoll_ext).
 Definition cmp_one_ext := ltac:(inst EqGP.cmp_one_ext).
 Definition all_cmp_ext := ltac:(inst EqGP.all_cmp_ext).
@@ -1110,6 +1198,8 @@ Definition object_branch_ext := ltac:(inst EqGP.object_branch_ext).
 Definition body_ext := ltac:(inst EqGP.body_ext).
 Definition contains_total := ltac:(inst EqGP.contains_total).
 Definition all_contained_total := ltac:(inst EqGP.all_contained_total).
+Definition find_unused_total := ltac:(inst EqGP.find_unused_total).
+Definition all_matched_total := ltac:(inst EqGP.all_matched_total).
 Definition itemcoll_total := ltac:(inst EqGP.itemcoll_total).
 Definition cmp_one_total := ltac:(inst EqGP.cmp_one_total).
 Definition all_cmp_total := ltac:(inst EqGP.all_cmp_total).
@@ -1143,6 +1233,13 @@ Definition ieq_nil := ltac:(inst EqGP.ieq_nil).
 Definition nl_equals_refl := ltac:(inst EqGP.nl_equals_refl).
 Definition contains_refl := ltac:(inst EqGP.contains_refl).
 Definition all_contained_refl := ltac:(inst EqGP.all_contained_refl).
+Notation unused := EqGP.unused.
+Definition unused_fresh := ltac:(inst EqGP.unused_fresh).
+Definition find_unused_removal := ltac:(inst EqGP.find_unused_removal).
+Definition all_matched_removal := ltac:(inst EqGP.all_matched_removal).
+Definition all_matched_fresh := ltac:(inst EqGP.all_matched_fresh).
+Definition all_removed_pointwise := ltac:(inst EqGP.all_removed_pointwise).
+Definition all_matched_refl := ltac:(inst EqGP.all_matched_refl).
 Definition itemcoll_refl := ltac:(inst EqGP.itemcoll_refl).
 Definition cmp_one_refl := ltac:(inst EqGP.cmp_one_refl).
 Definition all_cmp_refl := ltac:(inst EqGP.all_cmp_refl).
